@@ -56,6 +56,12 @@ def run_ngram(case):
     kept = set(toks)
     if "min_occurrences" in kw:
         kept = {t for t in kept if toks.count(t) >= kw["min_occurrences"]}
+    ndocs = len(docs)
+    dcount = lambda t: sum(1 for d in docs if t in d)
+    if "max_document_occurrences" in kw:
+        kept = {t for t in kept if dcount(t) <= kw["max_document_occurrences"]}
+    if "min_document_occurrences" in kw:
+        kept = {t for t in kept if dcount(t) >= kw["min_document_occurrences"]}
     if not kept:
         return res(rej=True, out="empty-vocabulary")
     pdocs = [[t for t in d if t in kept] for d in docs]
@@ -64,10 +70,16 @@ def run_ngram(case):
     for r_ in refs:
         for g, c in r_.items():
             allg[g] = allg.get(g, 0) + c
+    keepg = set(allg)
     if n > 1 and "min_occurrences" in kw:
-        keepg = {g for g, c in allg.items() if c >= kw["min_occurrences"]}
-    else:
-        keepg = set(allg)
+        keepg = {g for g in keepg if allg[g] >= kw["min_occurrences"]}
+    if n > 1:
+        # document bounds apply to the n-grams as well, relative to ALL documents (also those too short to hold an n-gram)
+        gd = lambda g: sum(1 for r_ in refs if g in r_)
+        if "max_document_occurrences" in kw:
+            keepg = {g for g in keepg if gd(g) <= kw["max_document_occurrences"]}
+        if "min_document_occurrences" in kw:
+            keepg = {g for g in keepg if gd(g) >= kw["min_document_occurrences"]}
     if n > 1 and not keepg:
         return res(rej=True, out="no-ngrams")
     v = []
@@ -128,7 +140,9 @@ def _ngram_cases(tier):
     tests = [["", "abz", "cab"], ["zz", "ba"]]
     for n in (1, 2, 3):
         for beh in ("exact", "subgrams"):
-            for kw in ({}, {"min_occurrences": 2}):
+            for kw in ({}, {"min_occurrences": 2}, {"max_document_occurrences": 1}, {"min_document_occurrences": 2}):
+                if "min_occurrences" not in kw and kw and beh == "subgrams":
+                    continue
                 for d in itertools.product(docs, repeat=2):
                     if tier == "quick" and n == 3 and len(d[0]) + len(d[1]) < 3:
                         continue
